@@ -15,7 +15,7 @@ RULE = ("case = one decision of a generated context (configuration x category x 
 ROUNDS = {  # cheap cost ranges used by the generator: (low, high) for configured values
     "sha256_crypt": (1000, 3000), "sha512_crypt": (1000, 3000), "pbkdf2_sha256": (1, 400), "sha1_crypt": (1, 400),
     "bcrypt": (4, 6), "phpass": (7, 9), "scram": (1, 300), "bsdi_crypt": (1, 301), "ldap_pbkdf2_sha256": (1, 300),
-    "django_pbkdf2_sha256": (1, 300),
+    "django_pbkdf2_sha256": (1, 300), "bcrypt_sha256": (4, 5),
 }
 PLAIN = ["md5_crypt", "des_crypt", "ldap_salted_sha1", "apr_md5_crypt", "mysql41", "bigcrypt", "hex_md5", "nthash"]
 OVERLAP = {"bigcrypt", "hex_md5", "nthash"}   # formats whose strings are also claimed by other pool members (ordering matters)
@@ -59,6 +59,8 @@ def gen_opts(rng, scheme, must_bound=True, base=None):
         o = dict(max_rounds=a, min_rounds=a)
         if scheme == "bsdi_crypt" and rng.random() < 0.3:
             o = dict(max_rounds=a + 1, min_rounds=a + 1)   # a window holding a single even value
+    if scheme == "bcrypt_sha256" and rng.random() < 0.5:
+        o["version"] = rng.choice([1, 1, 2])           # the older layout stays a valid policy: its own fresh hashes are final
     if rng.random() < 0.35 and "rounds" not in o:
         if H.get(scheme).rounds_cost == "linear":
             o["vary_rounds"] = rng.choice([1, 7, 50, 0.1, 0.25, "10%", "5"])
@@ -178,6 +180,8 @@ def corpus_hash(scheme, rounds, variant=0):
             kw["ident"] = {1: "2a", 2: "2y", 3: "2a"}[variant]
         if scheme == "phpass" and variant:
             kw["ident"] = "H"
+        if scheme == "bcrypt_sha256" and variant:
+            kw["version"] = 1
         hs = h.using(**kw).hash(PW) if kw else h.hash(PW)
         if scheme == "bcrypt" and variant == 3:
             # a legacy $2a$ hash whose 22nd salt character carries stray padding bits (documented: such hashes are flagged for update)
@@ -311,6 +315,8 @@ def check_cfg(run, rng, cfg, idx):
                 variants += [(c, 1) for c in costs] + [(costs[-1], 2), (costs[0], 2), (costs[len(costs) // 2], 3)]
             if s == "phpass":
                 variants += [(costs[0], 1), (costs[-1], 1)]
+            if s == "bcrypt_sha256":
+                variants += [(c, 1) for c in costs]        # version-1 layout
             if s in ("sha256_crypt", "sha512_crypt"):
                 variants.append((5000, 0))   # rendered with the implicit (elided) rounds field
             for c, var in variants:
